@@ -637,7 +637,7 @@ var c16Shorthand = func() map[string][][2]rune {
 // standard library in the oracle half)
 var c16PosixRanges = map[string][][2]rune{
 	"alnum": {{'0', '9'}, {'A', 'Z'}, {'a', 'z'}}, "alpha": {{'A', 'Z'}, {'a', 'z'}}, "ascii": {{0, 0x7f}}, "blank": {{'\t', '\t'}, {' ', ' '}},
-	"cntrl": {{0, 0x1f}, {0x7f, 0x7f}}, "graph": {{'!', '~'}}, "lower": {{'a', 'z'}}, "print": {{' ', '~'}},
+	"cntrl": {{0, 0x1f}, {0x7f, 0x7f}}, "digit": {{'0', '9'}}, "graph": {{'!', '~'}}, "lower": {{'a', 'z'}}, "print": {{' ', '~'}},
 	"punct": {{'!', '/'}, {':', '@'}, {'[', '`'}, {'{', '~'}}, "space": {{'\t', '\r'}, {' ', ' '}}, "upper": {{'A', 'Z'}}, "xdigit": {{'0', '9'}, {'A', 'F'}, {'a', 'f'}},
 }
 
@@ -692,8 +692,6 @@ func c16ItemsSexp(c *c16Class, opts int, ids map[string]int, ends *[]rune) strin
 			parts = append(parts, fmt.Sprintf("(cs %d %d)", id(it.Name), b2int(it.Neg)))
 		case "px":
 			switch it.Name {
-			case "digit": // addDigit(false, negate)
-				parts = append(parts, fmt.Sprintf("(cs %d %d)", id("Nd"), b2int(it.Neg)))
 			case "word": // addWord(true, negate)
 				if it.Neg {
 					parts = append(parts, table("ecma-W"))
@@ -851,21 +849,6 @@ func c16Check(c *core.Ctx, cases []c16Case) []core.Outcome {
 			k := "mem:"
 			if sem.ci && dump != nil && dump.Negate && !cs.Class.Neg {
 				k = "caseflip:"
-			}
-			if sem.re2 {
-				// POSIX names built from non-ASCII tables: [:space:] = ECMAScript \s, [:digit:] = \p{Nd}
-				spaceExtra := ch >= 0x80 && c16ECMASpace(ch)
-				digitExtra := ch >= 0x80 && unicode.Is(unicode.Nd, ch)
-				for cl := &cs.Class; cl != nil; cl = cl.Sub {
-					for _, it := range cl.Items {
-						if it.K == "px" && it.Name == "space" && spaceExtra {
-							k = "posix-space:"
-						}
-						if it.K == "px" && it.Name == "digit" && digitExtra {
-							k = "posix-digit:"
-						}
-					}
-				}
 			}
 			if k != "mem:" {
 				return k + "class-family" // one key per defect family: leaves room among the recorded failures
@@ -1208,6 +1191,16 @@ func init() {
 			{Class: c16Class{Items: []c16Item{c16R('c', 'f'), c16R('a', 'd'), c16R('x', 'x'), c16R('g', 'g')}}, Salt: 14},
 			{Class: c16Class{Items: []c16Item{{K: "px", Name: "upper", Neg: true}}}, Opts: c16RE2, Salt: 15},
 			{Class: c16Class{Items: []c16Item{{K: "px", Name: "space"}}}, Opts: c16RE2, Salt: 16},
+			// POSIX names are the ASCII sets of RE2 (503cb91, 88438d2)
+			{Class: c16Class{Items: []c16Item{{K: "px", Name: "space", Neg: true}}}, Opts: c16RE2, Salt: 17},
+			{Class: c16Class{Items: []c16Item{{K: "px", Name: "digit"}}}, Opts: c16RE2, Salt: 18},
+			{Class: c16Class{Items: []c16Item{{K: "px", Name: "digit", Neg: true}, c16R('a', 'a')}}, Opts: c16RE2 | c16I, Salt: 19},
+			// IgnoreCase and the negated normal form (d62d6ac)
+			{Class: c16Class{Items: []c16Item{{K: "sh", Name: "w", Neg: true}, c16R('b', 'z'), c16R('0', '9'), c16R('_', '_'), c16R('A', 'Z')}}, Opts: c16E | c16I, Salt: 20},
+			{Class: c16Class{Items: []c16Item{{K: "px", Name: "alpha", Neg: true}, {K: "px", Name: "lower"}, c16R('@', '@')}}, Opts: c16RE2 | c16I, Salt: 21},
+			{Class: c16Class{Items: []c16Item{{K: "px", Name: "upper", Neg: true}}}, Opts: c16RE2 | c16I, Salt: 22, Full: true},
+			{Class: c16Class{Items: []c16Item{{K: "px", Name: "upper", Neg: true}, {K: "p", Name: "N"}}}, Opts: c16RE2 | c16I, Salt: 23},
+			{Class: c16Class{Items: []c16Item{{K: "sh", Name: "d"}, c16R('z', '}'), c16R('J', 'q'), {K: "sh", Name: "w", Neg: true}}}, Opts: c16E | c16I, NoBitmap: true, Salt: 24},
 		}
 		core.RunLeg(c, core.Leg[c16Case]{
 			Name: "K", Kind: "correspondence+oracle",
